@@ -170,11 +170,14 @@ func loopBody(loop ast.Stmt) *ast.BlockStmt {
 
 // loopCell builds the expression X[key] for a range loop over X with an identifier key.
 func loopCell(loop *ast.RangeStmt) ast.Expr {
-	key, ok := loop.Key.(*ast.Ident)
-	if !ok {
-		return nil
+	if key, ok := loop.Key.(*ast.Ident); ok && key.Name != "_" {
+		return &ast.IndexExpr{X: loop.X, Index: key}
 	}
-	return &ast.IndexExpr{X: loop.X, Index: key}
+	// `for _, v := range X`: the value variable is the cell
+	if v, ok := loop.Value.(*ast.Ident); ok && v.Name != "_" {
+		return v
+	}
+	return nil
 }
 
 // topIndex returns the index of the top-level statement of body that contains n.
